@@ -25,6 +25,11 @@ def main():
     if a.replay:
         with open(a.replay) as f:
             data = json.load(f)
+        if isinstance(data.get("replay"), dict) and \
+                data["replay"].get("unforeseen_exception"):
+            # the witness is the check itself: run it again
+            os.execv(sys.executable, [sys.executable, "-m", "vlib.main", prop,
+                                      "--tier", data.get("tier", "quick")])
         try:
             bad = mod.replay(data["replay"])
         except common.HarnessError as e:
@@ -54,9 +59,50 @@ def main():
         traceback.print_exc()
         print("HARNESS-ERROR property=%s %s" % (prop, e))
         return 2
+    except Exception as e:  # noqa
+        # an exception the check did not foresee.  When it was raised by the
+        # library itself (innermost frame under <repo>/src/pydsol) it is a
+        # behaviour of the library that the unchanged tree does not show: a
+        # violation with the traceback as witness.  Raised anywhere else it is
+        # a broken check.
+        site = library_site(e)
+        if site is None:
+            raise
+        ctx.violation(
+            "%s:library-raised-unexpectedly:%s:%s" % (prop, type(e).__name__,
+                                                      site[0]),
+            "the check could not be completed: the library raised %s: %s at "
+            "%s (an operation that succeeds on the unchanged tree)" % (
+                type(e).__name__, str(e)[:200], site[1]),
+            {"unforeseen_exception": type(e).__name__, "site": site[1]})
     finally:
         common.close_pool()
     return ctx.finish()
+
+
+def library_site(exc):
+    """(function name, 'file:line in function') of the innermost library frame
+    when the exception was raised inside the library (directly or in a worker
+    process), else None"""
+    import re
+    texts = []
+    e = exc
+    seen = 0
+    while e is not None and seen < 5:
+        texts.append("".join(traceback.format_exception(type(e), e,
+                                                        e.__traceback__)))
+        tb = getattr(e, "tb", None)          # multiprocessing RemoteTraceback
+        if isinstance(tb, str):
+            texts.append(tb)
+        e = e.__cause__ or e.__context__
+        seen += 1
+    for text in texts:
+        frames = re.findall(r'File "([^"]+)", line (\d+), in (\S+)', text)
+        if frames and "/src/pydsol/" in frames[-1][0]:
+            f, ln, fn = frames[-1]
+            return fn, "%s:%s in %s" % (f[f.index("/src/pydsol/") + 5:], ln,
+                                        fn)
+    return None
 
 
 if __name__ == "__main__":
